@@ -27,13 +27,17 @@ DRIVERS = ['drv_fields']
 TABLES = ['fields']
 PROP = 'C18'
 ASSUMPTIONS = [
-    'the text parsers of /repo are not modelled function by function: parser totality and acceptance are enumerated on the boundary grid (every field x every boundary value x every entry point x every session shape) and sampled on the token-soup stream, not proved',
+    'the text parsers of /repo are not modelled function by function: parser totality and acceptance are enumerated on the boundary grid (every field x every boundary value x every entry point x every session shape), on the keyword x value stream and on the structural junk list, and sampled on the seeded token soup; they are not proved',
     'M-Fields is the capacity (RFC) side: fits / encodeField / decodeField are the reference the real parser, encoder and decoder are compared with',
+    'refusal = the entry point returns no route and leaves an error message, or raises ValueError / IndexError (the two exceptions the API command handlers turn into an error reply); any other exception, and not returning within 2 s + 1 s per 10 000 characters, is a failure',
+    'accepted = API.api_* returned routes AND the API command handler answered done',
     'a field shorter on the wire than the model width (FlowSpec values take 1/2/4 bytes, RD and route-target switch between the 2-byte-AS and 4-byte-AS form) is compared left-padded with zeros',
     'on a 2-byte session ExaBGP omits AS4_PATH / AS4_AGGREGATOR when no AS number of the attribute needs it; the reference decoder is then given the 2-byte element twice',
-    'whether an UPDATE larger than the negotiated message size is produced is property C09, not C18: here only raising counts',
-    'rate-limit is an IEEE float on the wire and is not swept for exactness',
-    'session shapes: iBGP/eBGP x 4-byte/2-byte AS x ADD-PATH on/off x 4096/65535; AIGP enabled so that the attribute is sent and read on every shape',
+    'the bytes sent are located with an UPDATE walker written from the RFC layouts and read by the Lean reference decoder; when those give the written value and ExaBGP\'s own decoder does not (or raises), that is recorded in coverage.notes for the decoder properties (C02, C03, C15) and is not a C18 failure',
+    'list lengths: must be accepted when the value leaves 160 bytes for the rest of a 65535-byte UPDATE, must be refused when it does not fit beside the smallest mandatory attributes; no verdict in between (class room-depends-on-session). An UPDATE larger than a 4096-byte session allows, or dropped there, is property C09',
+    'the extended-length bit of the flags of a generic attribute follows the length, it is not the writer\'s; next hop of the other address family (RFC 8950) and next-hop self depend on the session, not on the text: not swept',
+    'rate-limit is an IEEE float on the wire and is not swept for exactness; the three community list parsers are quadratic in the number of elements: their limits (5462, 8192, 16384 elements) are run in the thorough tier only, 20 000 communities (8 minutes) not at all — the 70 000-byte attribute, 16384 cluster ids and 16400 / 32640 AS numbers exercise the same class on every run',
+    'session shapes: iBGP/eBGP x 4-byte/2-byte AS x ADD-PATH on/off x 4096/65535, all over IPv4 transport; AIGP enabled so that the attribute is sent and read on every shape',
 ]
 TRUSTED_EXTRA = ['harness/fieldsrig.py UPDATE walker (locates the bytes of a field from the RFC layouts, independent of ExaBGP)']
 
@@ -558,6 +562,8 @@ def abstract(tok: str) -> str:
     return 'W'
 
 
+DECODER_NOTES: dict[str, str] = {}  # exception of ExaBGP's decoder on a well-formed UPDATE -> first text
+
 KEYWORDS = set(VOCAB_KW) | {'next-hop', 'bgp-prefix-sid', 'bgp-prefix-sid-srv6', 'route-distinguisher', 'nlri', 'endpoint', 'base', 'offset', 'size', 'route', 'attributes', 'vpls', 'flow'}
 
 
@@ -601,9 +607,13 @@ def junk_outcome(rig: fr.Rig, kind: str, text: str) -> tuple[str, str]:
             return 'encode-raises', f'{sh.name}: {fr._exc(e)}'
         for m in msgs:
             try:
-                rig.decode(sh, m)
-            except Exception as e:  # noqa: BLE001
+                fr.split_update(m[19:])
+            except Exception as e:  # noqa: BLE001 — not a well-formed UPDATE by the RFC 4271 layout
                 return 'sent-malformed', f'{sh.name}: {fr._exc(e)}'
+            try:
+                rig.decode(sh, m)
+            except Exception as e:  # noqa: BLE001 — the decoder's business (C02 / C03), noted
+                DECODER_NOTES.setdefault(fr._exc(e)[:80], f'"{text[:120]}" on {sh.name}')
     return 'ok', ''
 
 
@@ -851,6 +861,8 @@ def run(ctx: Ctx) -> None:
             lean2 = lean_batch(extra_cases, sw)
             for case in extra_cases:
                 sw.judge(case, lean2)
+    for exc, where in list(DECODER_NOTES.items())[:8]:
+        ctx.notes.append(f'well-formed UPDATE that ExaBGP\'s own decoder refuses (not held against the parser): {exc}: {where}')
     total = time.time() - t0
     ctx.extra['cases_per_second'] = round(ctx.evaluations / max(total, 0.001), 1)
     rig.close()
